@@ -224,7 +224,7 @@ def run(ctx):
     pool, rejected = P.make_pool(rnd, ctx.budget(28, 60), present_c01=tuple(set(c01) | ({"sliced_index_array_cpu"} if "registry_first_instance_decides" in present else set())))
     pool += special_entries()
     for e in pool:
-        e["snaps"] = [S.snap(a) for a in e["arrays"]]
+        e.setdefault("snaps", P.pre_snaps(e["arrays"]))
     kinds = collections.Counter(k for e in pool for k in set(T.kinds_of(e["tree"])))
     extra.update(pool_size=len(pool), pool_kind_histogram=dict(kinds), pool_rejected_c01=rejected, c01_flags_avoided=sorted(c01))
 
@@ -276,7 +276,7 @@ def run(ctx):
             if not np.array_equal(e["base"].astype(np.complex128), T.dense(t)):
                 sweep_rej += 1
                 continue
-            e["snaps"] = [S.snap(a) for a in e["arrays"]]
+            e.setdefault("snaps", P.pre_snaps(e["arrays"]))
             sweep.append(e)
         except Exception:
             sweep_rej += 1
